@@ -100,4 +100,6 @@ def digest(prog):
         out.append((id(c), id(c.op), type(c.op).__name__, tuple(repr(x) for x in c.op.p), bool(getattr(c.op, "dagger", False)),
                     repr(getattr(c.op, "select", None)), tuple(r.ind for r in c.reg)))
     regs = tuple((i, bool(r.active)) for i, r in sorted(prog.reg_refs.items()))
-    return (tuple(out), regs, tuple(sorted(prog.unused_indices)) if hasattr(prog, "unused_indices") else ())
+    opts = (repr(sorted(getattr(prog, "run_options", {}).items())), repr(sorted(getattr(prog, "backend_options", {}).items())),
+            repr(getattr(prog, "target", None)))
+    return (tuple(out), regs, tuple(sorted(prog.unused_indices)) if hasattr(prog, "unused_indices") else (), opts)
